@@ -423,6 +423,19 @@ func scanGrid(p *pureAcc) {
 			chk("refund-earned-fees-pays-the-provider", hexs(pr), []string{fmt.Sprint(100 + i)}, []string{got})
 		}
 	}
+	// withdrawal addresses: the scan used by the genesis export returns every owner exactly (owners of every length)
+	{
+		cctx, _ := ctx.CacheContext()
+		var want, got []string
+		for i, o := range provs {
+			k.SetWithdrawAddress(cctx, o, owners[i%len(owners)])
+			want = append(want, hexs(o)+">"+hexs(owners[i%len(owners)]))
+		}
+		safely(p, "withdraw-addresses", func() {
+			k.IterateWithdrawAddresses(cctx, func(o, w sdk.AccAddress) bool { got = append(got, hexs(o)+">"+hexs(w)); return false })
+		})
+		chk("withdraw-addresses", "all owners", want, got)
+	}
 	// pending requests of a binding
 	for _, n := range names {
 		for _, pr := range provs {
@@ -474,6 +487,44 @@ func keysAndIDs(tier string) (*PureEvidence, []Found) {
 type oracleC18 struct{ baseOracle }
 
 func (oracleC18) Prop() string { return "C18" }
+
+// Invariant: in every reachable state the scan "pending requests of a binding" returns exactly the requests that are
+// pending (by the by-ID marker) for that service and provider.
+func (oracleC18) Invariant(x *OCtx, v *View, m *Mon) []Violation {
+	var out []Violation
+	if len(v.ActiveByID) == 0 && len(v.Active) == 0 {
+		return nil
+	}
+	ctx := x.Rig.ReadCtx(v.S)
+	for _, br := range v.Bindings {
+		b := br.B
+		var want, got []string
+		for id := range v.ActiveByID {
+			r := v.Reqs[id]
+			if r == nil || !bytes.Equal(r.Provider, b.Provider) {
+				continue
+			}
+			if c := v.Ctxs[hexs(r.RequestContextId)]; c != nil && c.ServiceName == b.ServiceName {
+				want = append(want, id)
+			}
+		}
+		it := x.Rig.sk.ActiveRequestsIterator(ctx, b.ServiceName, b.Provider)
+		for ; it.Valid(); it.Next() {
+			var bv gogotypes.BytesValue
+			mustUnmarshal(it.Value(), &bv)
+			got = append(got, hexs(bv.Value))
+		}
+		it.Close()
+		sort.Strings(want)
+		sort.Strings(got)
+		x.Wit("C18:pending-requests-of-binding-scanned")
+		if strings.Join(want, ",") != strings.Join(got, ",") {
+			out = append(out, viol("C18", "scan-returns-exactly-its-subject", "state", "pending-requests-of-binding",
+				fmt.Sprintf("pending requests of (%s,%s): scan returns %d, pending by ID %d", b.ServiceName, nameOf(b.Provider), len(got), len(want))))
+		}
+	}
+	return out
+}
 
 func (oracleC18) Step(x *OCtx, t *Trans) []Violation {
 	var out []Violation
